@@ -30,6 +30,7 @@ pub fn exec_case(case: &Case) -> CaseResult {
         Engine::LogSim => run_case(case, crate::logsim::body),
         Engine::IoFault => exec_iofault(case),
         Engine::Corrupt => run_case(case, crate::corrupt::body),
+        Engine::LockRace => run_case(case, crate::lockrace::body),
         _ => unimplemented!("engine {:?}", case.engine),
     }
 }
@@ -60,7 +61,7 @@ fn conc_case(run_seed: u64, tier: Tier, profile: ConcProfile) -> Case {
     let (plan, params) = gen_conc(&mut rng, profile, tier == Tier::Thorough);
     let est = (plan.op_count() as u32) * 40;
     let sched = gen_strategy(&mut rng.fork("sched"), est, true);
-    Case { engine: Engine::Conc, run_seed, plan, sched, schedule: None, fault: None, params, image: None, max_steps: Some(2_000_000), log_plan: None, corrupt: None }
+    Case { engine: Engine::Conc, run_seed, plan, sched, schedule: None, fault: None, params, image: None, max_steps: Some(2_000_000), log_plan: None, lock_plan: None, corrupt: None }
 }
 
 fn conc_spec(prop: &'static str, profile: ConcProfile, rule: &'static str, probes: &'static [&'static str], runs: (u64, u64)) -> CheckSpec {
@@ -90,7 +91,7 @@ fn hist_case(run_seed: u64, tier: Tier, profile: Profile) -> Case {
     let plan = gen_hist(&mut rng, profile, size);
     let est = (plan.op_count() as u32) * 60;
     let sched = gen_strategy(&mut rng.fork("sched"), est, false);
-    Case { engine: Engine::Hist, run_seed, plan, sched, schedule: None, fault: None, params: BTreeMap::new(), image: None, max_steps: None, log_plan: None, corrupt: None }
+    Case { engine: Engine::Hist, run_seed, plan, sched, schedule: None, fault: None, params: BTreeMap::new(), image: None, max_steps: None, log_plan: None, lock_plan: None, corrupt: None }
 }
 
 const HIST_ASSUMPTIONS: &[&str] = &[
@@ -225,7 +226,7 @@ fn iofault_case(run_seed: u64, tier: Tier) -> Case {
     let sched = SchedSpec { strategy: Strategy::Sticky { q_permille: *srng.pick(&[1000u32, 990, 900]) }, seed: srng.next_u64() };
     let mut params = BTreeMap::new();
     params.insert("max_points".to_string(), if tier == Tier::Quick { 30 } else { 100_000 });
-    Case { engine: Engine::IoFault, run_seed, plan, sched, schedule: None, fault: None, params, image: None, max_steps: Some(3_000_000), log_plan: None, corrupt: None }
+    Case { engine: Engine::IoFault, run_seed, plan, sched, schedule: None, fault: None, params, image: None, max_steps: Some(3_000_000), log_plan: None, lock_plan: None, corrupt: None }
 }
 
 fn iofault_spec() -> CheckSpec {
@@ -288,7 +289,7 @@ fn corrupt_case(run_seed: u64, tier: Tier) -> Case {
     params.insert("clean_close".to_string(), srng.below(2) as i64);
     params.insert("reuse".to_string(), srng.below(2) as i64);
     params.insert("max_offsets_per_file".to_string(), if tier == Tier::Quick { 120 } else { 100_000 });
-    Case { engine: Engine::Corrupt, run_seed, plan, sched, schedule: None, fault: None, params, image: None, max_steps: Some(50_000_000), log_plan: None, corrupt: None }
+    Case { engine: Engine::Corrupt, run_seed, plan, sched, schedule: None, fault: None, params, image: None, max_steps: Some(50_000_000), log_plan: None, lock_plan: None, corrupt: None }
 }
 
 fn corrupt_spec() -> CheckSpec {
@@ -315,6 +316,50 @@ fn corrupt_spec() -> CheckSpec {
     }
 }
 
+fn lock_spec() -> CheckSpec {
+    CheckSpec {
+        prop: "C17",
+        level: "exploration",
+        rule: "one evaluation = one simulated run in which 2-4 tasks execute seeded programs over {open(create_if_missing), hold (re-reading the own key through the handle), close, destroy_database} on ONE path of the real disk filesystem (TmpFileSystem = fs_disk.rs with flock) wrapped in a delegate that makes every filesystem call a scheduling point, so tasks interleave between the individual syscalls of DB::open, Drop and destroy_database; a final phase lets k tasks race open after every handle was closed and hold their handle until a barrier. Oracle: an open that returns Ok while another task held the database during the whole call is a violation; destroy_database returning Ok while a task held the database during the whole call is a violation; an owner's writes/reads must keep working (the running instance is not disturbed); in the final phase exactly one open succeeds. Non-trivial = at least one open or destroy was refused because of an owner; distinct = distinct (opens ok, refused, destroys refused, ok, final winners) vectors x probes x context-switch bucket.",
+        assumptions: vec![
+            "the only check that touches the real filesystem: flock semantics are those of the sandbox kernel (two descriptors of one process conflict)".into(),
+            "tasks interleave at filesystem calls, lock/condvar/channel operations and explicit yields; file-handle reads and writes are not scheduling points here".into(),
+        ],
+        expected_probes: &["open_refused_while_owned", "destroy_refused_while_owned", "destroy_succeeded_when_closed", "freeze_fired"],
+        gen: Box::new(|rs, _i, tier| {
+            let mut rng = Rng::new(rs);
+            let lp = crate::lockrace::gen_plan(&mut rng.fork("lock"), tier == Tier::Thorough);
+            let mut knobs = crate::plan::Knobs::gen(&mut rng.fork("knobs"));
+            knobs.max_memtable_size = 4096;
+            let sched = gen_strategy(&mut rng.fork("sched"), 400, true);
+            Case {
+                engine: Engine::LockRace,
+                run_seed: rs,
+                plan: crate::plan::Plan { keys: vec![], opens: vec![knobs], ops: vec![], clients: vec![], tail: vec![] },
+                sched,
+                schedule: None,
+                fault: None,
+                params: BTreeMap::new(),
+                image: None,
+                max_steps: Some(500_000),
+                log_plan: None,
+                corrupt: None,
+                lock_plan: Some(lp),
+            }
+        }),
+        exec: Box::new(exec_case),
+        evals: Box::new(|_| 1),
+        runs_quick: 3000,
+        runs_thorough: 200_000,
+        wall_quick: 60.0,
+        wall_thorough: 1200.0,
+        shrink_plan: false,
+        narrow: None,
+        exhaustive: false,
+        extra: json!({"engine": "lockrace: real DB + background threads on the real disk filesystem (temp dir), every filesystem call a scheduling point"}),
+    }
+}
+
 fn crash_case(run_seed: u64, tier: Tier, torn: bool) -> Case {
     let mut rng = Rng::new(run_seed);
     let size = if tier == Tier::Quick { BASE_QUICK } else { BASE_THOROUGH };
@@ -329,7 +374,7 @@ fn crash_case(run_seed: u64, tier: Tier, torn: bool) -> Case {
     }
     params.insert("max_points".to_string(), if tier == Tier::Quick { 48 } else { 100_000 });
     params.insert("clean_close".to_string(), (rng.fork("close").below(2)) as i64);
-    Case { engine: Engine::Crash, run_seed, plan, sched, schedule: None, fault: None, params, image: None, max_steps: Some(20_000_000), log_plan: None, corrupt: None }
+    Case { engine: Engine::Crash, run_seed, plan, sched, schedule: None, fault: None, params, image: None, max_steps: Some(20_000_000), log_plan: None, lock_plan: None, corrupt: None }
 }
 
 fn crash_spec(prop: &'static str, torn: bool, rule: &'static str, probes: &'static [&'static str]) -> CheckSpec {
@@ -388,6 +433,7 @@ fn log_spec() -> CheckSpec {
                 max_steps: Some(50_000_000),
                 log_plan: Some(plan),
                 corrupt: None,
+                lock_plan: None,
             }
         }),
         exec: Box::new(exec_case),
@@ -471,6 +517,7 @@ pub fn spec_for(prop: &str) -> Option<CheckSpec> {
         "C12" => log_spec(),
         "C08" => iofault_spec(),
         "C15" => corrupt_spec(),
+        "C17" => lock_spec(),
 
         "C02" => crash_spec(
             "C02",
